@@ -1017,7 +1017,7 @@ int32 matrixSslNewHelloExtension(tlsExtension_t **extension, void *userPoolPtr)
     return PS_SUCCESS;
 }
 
-void psCopyHelloExtension(tlsExtension_t *destination,
+int32 psCopyHelloExtension(tlsExtension_t *destination,
         const tlsExtension_t *source)
 {
     const tlsExtension_t *src;
@@ -1031,30 +1031,46 @@ void psCopyHelloExtension(tlsExtension_t *destination,
 
     while (1)
     {
+        /* Keep the copy consistent at every step so that it can be handed
+           to matrixSslDeleteHelloExtension when an allocation fails */
         dst->pool = src->pool;
         dst->extType = src->extType;
-        dst->extLen = src->extLen;
+        dst->extLen = 0;
+        dst->next = NULL;
         dst->extData = psMalloc(src->pool, src->extLen);
-        Memcpy(dst->extData, src->extData, src->extLen);
+        if (dst->extData == NULL && src->extLen > 0)
+        {
+            return PS_MEM_FAIL;
+        }
+        if (src->extLen > 0)
+        {
+            Memcpy(dst->extData, src->extData, src->extLen);
+        }
+        dst->extLen = src->extLen;
         if (src->next)
         {
             dst->next = psMalloc(src->pool, sizeof(*dst->next));
+            if (dst->next == NULL)
+            {
+                return PS_MEM_FAIL;
+            }
+            Memset(dst->next, 0x0, sizeof(*dst->next));
             dst = dst->next;
             src = src->next;
         }
         else
         {
-            dst->next = NULL;
             break;
         }
     }
+    return PS_SUCCESS;
 }
 
 /*
   Make a deep copy of the extension struct for re-sending
   during renegotiations and TLS 1.3 HelloRetryRequest responses.
 */
-void psAddUserExtToSession(ssl_t *ssl,
+int32 psAddUserExtToSession(ssl_t *ssl,
         const tlsExtension_t *ext)
 {
     if (ext == NULL)
@@ -1062,11 +1078,11 @@ void psAddUserExtToSession(ssl_t *ssl,
         /* No new extensions given (e.g. the DTLS ClientHello that answers
            a HelloVerifyRequest): keep the copy made earlier, it is freed
            with the session. */
-        return;
+        return PS_SUCCESS;
     }
     if (ssl->userExt == ext)
     {
-        return;
+        return PS_SUCCESS;
     }
     if (ssl->userExt != NULL)
     {
@@ -1074,7 +1090,18 @@ void psAddUserExtToSession(ssl_t *ssl,
         ssl->userExt = NULL;
     }
     ssl->userExt = psMalloc(ssl->hsPool, sizeof(tlsExtension_t));
-    psCopyHelloExtension(ssl->userExt, ext);
+    if (ssl->userExt == NULL)
+    {
+        return PS_MEM_FAIL;
+    }
+    Memset(ssl->userExt, 0x0, sizeof(tlsExtension_t));
+    if (psCopyHelloExtension(ssl->userExt, ext) < 0)
+    {
+        matrixSslDeleteHelloExtension(ssl->userExt);
+        ssl->userExt = NULL;
+        return PS_MEM_FAIL;
+    }
+    return PS_SUCCESS;
 }
 
 /******************************************************************************/
